@@ -129,6 +129,13 @@ func verifH_C04_rules2() {
 		}
 		ex.Extensions = ext
 		check()
+		if verifChoose("external", 2) == 1 {
+			// an example whose value lives elsewhere is as conforming as one that carries it
+			saved := ex.Value
+			ex.Value, ex.ExternalValue = nil, "https://v/example.json"
+			check()
+			ex.Value, ex.ExternalValue = saved, ""
+		}
 		switch verifChoose("how", 3) {
 		case 0:
 			ex.ExternalValue = "https://v"
